@@ -13,7 +13,7 @@ required-attributes loop abstracted away.  Here those two blocks are the real te
 
 Callees are leaves with the contracts proved on their real text elsewhere: find_attribute_spec, attribute_spec_iter,
 AttrDefinitionsIter::next (unit lookups), check_version, optional_error (unit lexer), parse_character_data (unit valueparse: strict
-Ok(v) ==> accepted(v, spec, version); `accepted` is uninterpreted here; its fileversion frame is ASSUMED, frame scan F4).
+Ok(v) ==> accepted(v, spec, version); `accepted` is uninterpreted here).
 AttributeName::from_bytes has an arbitrary result (its contract is C18's).
 
 Rules (besides those of unit lexer for the byte scanning, R35): `SmallVec::new()` -> `Vec::new()`; `for (name, _ctype, required) in
@@ -135,13 +135,12 @@ def make_unit(repo_dir):
              wrap={IMPL_P: "impl<'a> ArxmlParser<'a>", lookups.IMPL_ET: 'impl ElementType', lookups.IMPL_AI: 'impl AttrDefinitionsIter'},
              dropped=['SmallVec -> Vec; Attribute is {attrname, content} with an opaque CharacterData; error payloads opaque (R36); the leftover-text finding is the leaf vx_attr_value_error',
                       'callees are leaves with the contracts proved in units lookups / lexer / valueparse; `accepted` (value validity, unit valueparse) is uninterpreted here',
-                      'ASSUMED frame: parse_character_data leaves fileversion unchanged (frame scan F4)'])
+                      ])
     for name in ('ArxmlParser.error', 'optional_error', 'check_version'):
         u.leaves.append((pf[name], 'lexer'))
     pcd = copy.copy(vp['parse_character_data'])
-    pcd.ensures = list(pcd.ensures) + ['final(self).fileversion == old(self).fileversion']
     pcd.sig_sub = []
-    u.leaves.append((pcd, 'valueparse (fileversion frame ASSUMED, frame scan)'))
+    u.leaves.append((pcd, 'valueparse'))
     for name in ('find_attribute_spec', 'attribute_spec_iter', 'AttrDefinitionsIter.next'):
         u.leaves.append((lf[name], 'lookups'))
     return u
